@@ -66,6 +66,7 @@ def check_c11(prop, tier, seed):
                     dict(name='verbose', verbose=True),
                     dict(name='filepath', filepath=True),
                     dict(name='observers', observers=True),
+                    dict(name='explicit-blobs-dtype', explicit_blobs_dtype=True),
                     dict(name='unsliced', slices=False)]
         dirs = []
         for bi, b in enumerate(bases):
